@@ -90,14 +90,32 @@ def run_case(case: dict) -> CaseResult:
             except BaseException as e:  # noqa: BLE001
                 viol.append(V(f"c19:start-in-on_stop:raised:{type(e).__name__}", repr(e)[:200]))
 
+    connecting = [False]
+
     def set_device(beh: str | None):
         dev.auto = {1, 3, 5, 7, 9, 11}
+        dev.handlers.pop(9, None)
+        connecting[0] = False
         dev.api_version = (1, 10)
         dev.invalid_password = False
         dev.hello_trailer_msgs = []
         dev.on_frame = None
         dev.latency = D
-        if beh == "slowhello":
+        dev.name = "dev"
+        if beh == "noname":
+            # older firmware: no name in the hello answer, and no answer to a description request either -- the session
+            # is established by hello (+ login) alone
+            dev.name = ""
+            dev.auto = {1, 3, 5, 7, 11}
+            connecting[0] = True
+
+            def devinfo(s_, _p):
+                # ... i.e. none while the connect is still being made (the harness's own probes come later)
+                if not connecting[0]:
+                    s_.send(pb.DeviceInfoResponse(name="", mac_address="AA:BB:CC:DD:EE:FF"))
+
+            dev.handlers[9] = devinfo
+        elif beh == "slowhello":
             dev.latency = 6.0  # answers, but only after 6 s (longer than disconnect() waits for a connect to finish)
         elif beh == "badversion":
             dev.api_version = (3, 0)
@@ -343,6 +361,7 @@ def run_case(case: dict) -> CaseResult:
                 if not model["dead_started"]:
                     set_device(step.get("dev"))
                 order = await run_calls("finish", cli.finish_connection(login=bool(step.get("login", True))), step.get("interfere"))
+                connecting[0] = False
                 if model["dead_started"] and any(n.startswith("finish") and s == "ok" for n, s, _ in order):
                     viol.append(V("c19:finish-succeeded-on-dead-connection", f"step {i}"))
                 if not model["dead_started"]:
@@ -356,6 +375,7 @@ def run_case(case: dict) -> CaseResult:
                 env.tcp_script = [{"ok": ("ok", 4 * D), "refuse": ("refuse", 2 * D), "hang": ("hang",)}[step.get("tcp", "ok")]]
                 set_device(step.get("dev"))
                 order = await run_calls("connect", cli.connect(on_stop=on_stop, login=bool(step.get("login", True))), step.get("interfere"))
+                connecting[0] = False
                 rejected(order, step, "connect", i)
                 apply(order, "connect")
             elif op == "disc_cancel":
@@ -491,7 +511,7 @@ def run_case(case: dict) -> CaseResult:
 
 # ------------------------------------------------------------------ generators
 INTERFERE = st.one_of(st.none(), st.none(), st.builds(lambda w, a: {"what": w, "at": a}, st.sampled_from(["disconnect", "force", "cancel", "probe", "probe", "force+connect", "disconnect+connect", "cancel+connect"]), st.sampled_from([0, 1, 2, 3, 4, 5, 6, 8, 12, 64 * 6])))
-DEVB = st.sampled_from([None, None, None, "badversion", "badpass", "silent", "eof", "garbage", "discreq"])
+DEVB = st.sampled_from([None, None, None, "badversion", "badpass", "silent", "eof", "garbage", "discreq", "noname"])
 
 
 @st.composite
@@ -597,6 +617,11 @@ def enumerated(tier):
                 itf = {"what": "probe", "at": at}
                 yield {"noise": noise, "rot": rot, "steps": [{"op": "connect", "tcp": "ok", "dev": None, "login": True, "interfere": itf}] + second}
                 yield {"noise": noise, "rot": rot, "steps": [{"op": "connect", "tcp": "ok", "dev": "silent", "login": True, "interfere": {"what": "probe", "at": at + 6}}] + second}
+        # a nameless device that answers no description request: sessions are established all the same, twice
+        for login in (False, True):
+            yield {"noise": noise, "rot": 7, "steps": [{"op": "connect", "tcp": "ok", "dev": "noname", "login": login, "interfere": None}, {"op": "disconnect", "force": False},
+                                                      {"op": "connect", "tcp": "ok", "dev": "noname", "login": login, "interfere": None}, {"op": "dev", "what": "eof"}] + second}
+            yield {"noise": noise, "rot": 9, "steps": [{"op": "start", "tcp": "ok", "interfere": None}, {"op": "finish", "dev": "noname", "login": login, "interfere": None}, {"op": "disconnect", "force": True}] + second}
         # every failing device behaviour / TCP outcome, then a second session; every device ending at both stages
         for devb in ("badversion", "badpass", "silent", "eof", "garbage", "discreq"):
             yield {"noise": noise, "rot": 20, "steps": [{"op": "connect", "tcp": "ok", "dev": devb, "login": True, "interfere": None}] + second}
